@@ -249,7 +249,14 @@ impl<'a> Gen<'a> {
             let ino = w.inos.iter().position(|i| *i == x.0).map(Ref::Idx).unwrap_or(Ref::Raw(x.0));
             (ino, Ref::Idx(k), x.2)
         } else {
-            (Ref::Idx(0), Ref::Raw(*r.pick(&[0u64, 1, 99])), 0)
+            // a handle number that was never handed out (0 = what a zero-message-open client
+            // sends), on the root or on a regular file
+            let h = Ref::Raw(*r.pick(&[0u64, 0, 1, 99]));
+            let reg = if want_dir { None } else { self.idx_where(w, &[], |m| m & libc::S_IFMT == libc::S_IFREG) };
+            match reg {
+                Some(k) if self.r.chance(2, 3) => (Ref::Idx(k), h, libc::O_RDWR as u32),
+                _ => (Ref::Idx(0), h, 0),
+            }
         }
     }
 
